@@ -123,35 +123,35 @@ CLAIMED = {
             "PARTIAL: serde, serde_derive, serde_json, serde-big-array and the serde impls of fixed-hash / curve25519-dalek are modelled, not verified; "
             "JSON text parsing is not modelled (python's json module reads the text); ExtraField/SubField/PublicKey derives not covered",
             "Coq proof over a modelled serde data model (partial) + correspondence", "4 C19"),
-    "C07": ("Coq theorems (Props/C07.v, 7): soundness of every reported (position, index, key) - position in range, index in the scanned ranges, "
+    "C07": ("Coq theorems (Props/C07.v, 10): soundness of every reported (position, index, key) - position in range, index in the scanned ranges, "
             "key = first TxPublicKey or the additional key at that position (only if the main key did not match), view tag passed, "
             "P = Hs(8vK||varint pos)G + S_idx; positions strictly increasing; not-reported when no key matches; completeness w.r.t. an independent "
             "sender specification (Spec/Sender.v: primary and subaddress destinations, main or additional key, tagged or untagged) with exact "
-            "(index, key) under explicit no-other-match hypotheses; the three entry points agree - for EVERY group satisfying EdLaws (_partial) "
+            "(index, key) under explicit no-other-match hypotheses; reported <-> matches for EVERY transaction (not only sender-built ones) when the spend key is an accepted key, with a refutation witness showing that hypothesis is needed; the three entry points agree - for EVERY group satisfying EdLaws (_partial) "
             "and every hash. Correspondence: model sender builds the bytes; library = model = independent python sender + scanner on "
             "n in {1,2,3,130,260} (thorough 2000, 20000), all RingCT types, all output classes.",
             "PARTIAL: group laws are hypotheses (EdLaws); HashMap modelled as last-insert-wins association list; completeness relative to "
             "Spec/Sender.v and conditional on the scan returning Ok; no collision resistance assumed",
             "Coq proof over an abstract group (partial) + correspondence", "4 C07"),
-    "C08": ("Coq theorems (Props/C08.v, 9): every opening returned for ANY input satisfies C = C_t and C = yG + aH; a successful scan of a RingCT "
+    "C08": ("Coq theorems (Props/C08.v, 12): every opening returned for ANY input satisfies C = C_t and C = yG + aH; a successful scan of a RingCT "
             "transaction gives every owned output an opening of its own out_pk entry, otherwise clear amounts (0 -> None); failures are exactly "
             "MissingEcdhInfo / MissingCommitment / InvalidCommitment; the decoder inverts the sender (Spec/Sender.v) in the compact encoding for "
-            "all a < 2^64 and in the legacy encoding for all a < 2^64, masks < l and ALL shared secrets - for EVERY group satisfying EdLaws "
+            "all a < 2^64 and in the legacy encoding for all a < 2^64, masks < l and ALL shared secrets; END TO END: a successful scan of a transaction whose output k was built by the sender model reports it with exactly the sender's amount, mask and commitment, and the opening step of such an output never errs (C08_sender_amount_recovered_partial, C08_sender_step_ok_partial) - for EVERY group satisfying EdLaws "
             "(_partial). Correspondence: sender-encoded and corrupted fields at every byte position, all RingCT types, truncated vectors; "
             "library = model = python, and yG + aH = C re-checked independently on every returned opening.",
             "PARTIAL: group laws are hypotheses (EdLaws); legacy exactness needs Hs in [0,l) (true of Keccak mod l); model hand-written from ringct.rs after fix a645281",
             "Coq proof over an abstract group (partial) + correspondence", "4 C08"),
-    "C09": ("Coq theorems (Props/C09.v, 3): recover = Hs(8vK||varint n) + s (+ subaddress scalar) mod l; its public key is the one-time key of "
-            "that address and position; every output reported by a scan with (v, sG) is recovered without panic to x with xG = the output's key "
+    "C09": ("Coq theorems (Props/C09.v, 4): recover = Hs(8vK||varint n) + s (+ subaddress scalar) mod l; its public key is the one-time key of "
+            "that address and position; every output reported by a scan with (v, sG) is recovered without panic to x with xG = the output's key; for a sender-built output x*G is the sender's one-time key "
             "- for EVERY group satisfying EdLaws (_partial). Correspondence: KeyRecoverer on boundary positions / indices and "
             "OwnedTxOut::recover_key on every owned output of sender-built transactions; library = model = python.",
             "PARTIAL: group laws are hypotheses (EdLaws); model hand-written from onetime_key.rs / transaction.rs",
             "Coq proof over an abstract group (partial) + correspondence", "4 C09"),
-    "C04": ("proof, partial. Coq theorems (Props/C04.v, 67), for all inputs and size tables: no consensus decoder of the model returns Panic or "
+    "C04": ("proof, partial. Coq theorems (Props/C04.v, 72), for all inputs and size tables: no consensus decoder of the model returns Panic or "
             "runs out of fuel (the codec has no fuel); loop bounds (a completed rep has n <= |input|, iterations <= |input|+1 also on the error "
             "path; zero-column MLSAG rows are the only non-consuming element and are unreachable from dec_tx); every allocation request <= 32 MiB "
             "and the TOTAL of kept allocations of a successful transaction / block parse is <= A + B*|input| (C04_alloc_kept_total, worst ratio TxIn 64/2); tree-hash assert / block-id unwrap / ring checked_sub "
-            "unreachable on parsed objects; all text parsers total. Runtime behaviour (unwinding, aborts, hangs, heap peak <= 129 MiB + 96*|input|) "
+            "unreachable on parsed objects; all text parsers total; output scanning (all entry points, any table, any ranges, any key bytes), SubKeyChecker::check, check_view_tag at any position and OwnedTxOut::recover_key never panic in the model for every EdLaws group in which the constant H decodes (true of the executable instance by computation, shown necessary by a counter-instance). Runtime behaviour (unwinding, aborts, hangs, heap peak <= 129 MiB + 96*|input|) "
             "observed on ~1.3*10^5 adversarial evaluations in release and overflow-checking builds incl. operations on parsed objects and scanning "
             "with empty / reversed / extreme index ranges.",
             "PARTIAL: the kept total is proved, the in-flight part of the live-allocation bound (32 MiB cap x nesting depth) is argued, not proved; hashing / formatting / scanning of parsed "
